@@ -184,7 +184,7 @@ def start_shard(ctx, sh, binary, testname, cwd, extra_env, timeout_s, only=None,
     env = goenv({
         "VERIF_PROP": ctx["prop"], "VERIF_SEED": str(ctx["seed"]), "VERIF_TIER": ctx["tier"],
         "VERIF_SHARD": str(sh.idx), "VERIF_NSHARDS": str(sh.n), "VERIF_LOG": logp,
-        "VERIF_FROM": str(sh.from_), "VERIF_SCRATCH": ctx["scratch"],
+        "VERIF_FROM": str(sh.from_), "VERIF_SCRATCH": ctx["scratch"], "VERIF_HOME": VERIF,
         # measured in this VM: fresh-page faults are expensive, so a few processes with
         # many worker goroutines sharing their classifiers beat many processes
         "GOMAXPROCS": str(ctx.get("gomaxprocs", 2)),
